@@ -567,7 +567,11 @@ func (fr *Frame) applyContract(in ssa.Instruction, callee *ssa.Function, cc *ssa
 	env.old = pre
 	env.bindResults(callee, cc, res)
 	for _, en := range c.Ensures {
-		cond := env.evalBool(en.E)
+		// clauses that mention the callee's own ghost snapshots cannot be stated at a call site: they are simply not assumed
+		cond, ok := env.tryEvalBool(en.E)
+		if !ok {
+			continue
+		}
 		fr.assume(cond)
 	}
 	return res
@@ -797,6 +801,9 @@ func (fr *Frame) afterCall(in ssa.Instruction, cc *ssa.CallCommon, args []*Val, 
 		}
 		if ret != nil {
 			env.bound["$ret"] = ret
+			for i, e := range ret.Tup {
+				env.bound[fmt.Sprintf("$ret%d", i)] = e
+			}
 		}
 		if ac.Kind == "let" {
 			// ghost snapshot: the value of the expression in the state right after the call
